@@ -1,6 +1,8 @@
 package main
 
 import (
+	"log"
+	"io"
 	"encoding/hex"
 	"encoding/json"
 	"fmt"
@@ -166,6 +168,8 @@ func c01RunMulti(in *c01In) Result {
 
 func c01Run(in0 interface{}) Result {
 	in := in0.(*c01In)
+	// serveHTTP logs "No such site" with the raw Host text; ill-formed UTF-8 there must not reach the driver's pipe
+	log.SetOutput(io.Discard)
 	if len(in.Groups) > 0 {
 		return c01RunMulti(in)
 	}
@@ -204,6 +208,63 @@ func c01Run(in0 interface{}) Result {
 	req := httptest.NewRequest("GET", "http://placeholder.invalid/", nil)
 	req.Host = string(in.Host)
 	up := string(in.Path)
+	if strings.HasPrefix(string(in.Target), "/") {
+		// origin-form target: the Coq model decodes the raw text itself (CTarget); Go's URL.Path is handed over
+		// only to be compared with the model's decoding and to be checked by the lock-step spelling clause
+		raw := string(in.Target)
+		u, err := url.ParseRequestURI(raw)
+		var gp *string
+		code := 400 // net/http answers 400 before any handler when the request line does not parse
+		if err == nil {
+			req.URL = u
+			req.RequestURI = raw
+			req.ProtoMajor = in.Proto
+			rec := httptest.NewRecorder()
+			srv.ServeHTTP(rec, req)
+			code = rec.Code
+			t := cStr(u.Path)
+			gp = &t
+		}
+		term := cApp("CTarget", cList(siteTerms), cStrList(xf), cStr(string(in.Host)), cStr(raw), cOpt(gp), cN(uint64(in.Proto)),
+			cNList(trace), cN(uint64(code)), cStr(gotPrefix), cStr(gotPath))
+		esc, upper, lower, hi, slash := false, false, false, false, false
+		for i := 0; i+2 < len(raw); i++ {
+			if raw[i] == '%' {
+				esc = true
+				d := raw[i+1 : i+3]
+				if strings.ContainsAny(d, "ABCDEF") {
+					upper = true
+				}
+				if strings.ContainsAny(d, "abcdef") {
+					lower = true
+				}
+				if d[0] >= '8' {
+					hi = true
+				}
+				if strings.EqualFold(d, "2f") {
+					slash = true
+				}
+			}
+		}
+		feat := ""
+		if esc {
+			feat += "+esc"
+		}
+		if upper && lower {
+			feat += "+mixedhex"
+		}
+		if hi {
+			feat += "+hioctet"
+		}
+		if slash {
+			feat += "+2F"
+		}
+		if err != nil {
+			feat += "+rejected"
+		}
+		return Result{Term: term, Obs: map[string]interface{}{"trace": trace, "status": code, "prefix": gotPrefix, "path": gotPath, "rejected": err != nil},
+			Sig: "target", Nontrivial: len(in.Sites) >= 2 && esc, Class: fmt.Sprintf("target%s:hit=%v", feat, len(trace) > 0)}
+	}
 	if in.Target != "" {
 		u, err := url.ParseRequestURI(string(in.Target))
 		if err != nil {
@@ -222,6 +283,19 @@ func c01Run(in0 interface{}) Result {
 	simple := c01Simple.MatchString(up) && in.Target == ""
 	term := cApp("CRoute", cList(siteTerms), cStrList(xf), cStr(string(in.Host)), cStr(up), cN(uint64(in.Proto)), cBool(simple),
 		cNList(trace), cN(uint64(rec.Code)), cStr(gotPrefix), cStr(gotPath))
+	if in.Target == "" && !c01ASCII(string(in.Host)) && !strings.Contains(string(in.Host), "/") && strings.HasPrefix(up, "/") {
+		// a Host with non-ASCII bytes: judged by the model with Go's Unicode-aware folding (CRouteU)
+		term = cApp("CRouteU", cList(siteTerms), cStrList(xf), cStr(string(in.Host)), cStr(up), cN(uint64(in.Proto)),
+			cNList(trace), cN(uint64(rec.Code)), cStr(gotPrefix), cStr(gotPath))
+		cls := "valid"
+		if !utf8.ValidString(string(in.Host)) {
+			cls = "illformed"
+		} else if strings.ToLower(string(in.Host)) != c01LowerASCII(string(in.Host)) {
+			cls = "upper"
+		}
+		return Result{Term: term, Obs: map[string]interface{}{"trace": trace, "status": rec.Code, "prefix": gotPrefix, "path": gotPath},
+			Sig: "route:nonascii-host", Nontrivial: len(in.Sites) >= 2, Class: fmt.Sprintf("route:nonascii-host:%s:hit=%v", cls, len(trace) > 0)}
+	}
 	sig := "route"
 	brack := strings.Contains(string(in.Host), "[")
 	multi := !c01ASCII(up)
@@ -262,6 +336,16 @@ func c01Run(in0 interface{}) Result {
 	}
 	return Result{Term: term, Obs: map[string]interface{}{"trace": trace, "status": rec.Code, "prefix": gotPrefix, "path": gotPath},
 		Sig: sig, Nontrivial: len(in.Sites) >= 2, Class: fmt.Sprintf("%s%s:hit=%v", sig, feat, len(trace) > 0)}
+}
+
+func c01LowerASCII(s string) string {
+	b := []byte(s)
+	for i, c := range b {
+		if c >= 'A' && c <= 'Z' {
+			b[i] = c + 32
+		}
+	}
+	return string(b)
 }
 
 func c01ASCII(s string) bool {
@@ -647,6 +731,7 @@ func c01Gen(r *Rand, tier string) []interface{} {
 		out = append(out, &c01In{Groups: groups, Reqs: reqs})
 	}
 	out = append(out, c01GenSeq(r, scale, protoOf)...)
+	out = append(out, c01GenSpell(r, scale, protoOf)...)
 	return out
 }
 
@@ -781,10 +866,187 @@ func c01GenSeq(r *Rand, scale int, protoOf func() int) []interface{} {
 	return out
 }
 
+// c01Spell writes a decoded path as a request-target (or a Casketfile path): every octet either as itself or as
+// "%XY" with hex digits of random letter case; octets that cannot stand for themselves are always escaped.
+func c01Spell(r *Rand, p string, pct int, forKey bool) string {
+	var b strings.Builder
+	for i := 0; i < len(p); i++ {
+		c := p[i]
+		must := c == '%' || c == '?' || c < 0x20 || c == 0x7f
+		if forKey {
+			must = must || c == ' ' || c == '#' || c == '{' || c == '}' || c == '"' || c == ':'
+		}
+		if i == 0 && c == '/' {
+			b.WriteByte(c)
+			continue
+		}
+		if must || r.Chance(pct) {
+			const up, lo = "0123456789ABCDEF", "0123456789abcdef"
+			b.WriteByte('%')
+			for _, d := range []byte{c >> 4, c & 15} {
+				if r.Bool() {
+					b.WriteByte(up[d])
+				} else {
+					b.WriteByte(lo[d])
+				}
+			}
+		} else {
+			b.WriteByte(c)
+		}
+	}
+	return b.String()
+}
+
+// (I) SPELLINGS: site sets sharing a host whose path prefixes contain "/" inside, ASCII that is often written
+// percent-encoded, non-ASCII and invalid UTF-8 octets — the prefixes themselves written in the Casketfile with random
+// octets percent-encoded — and, for ONE decoded request path, several raw request-targets spelling it differently
+// (%2F / %2f for "/" inside a prefix, %61 for "a", %C3%a9, every octet escaped, a query appended) plus the literal
+// one; then malformed targets derived from them ("%" followed by fewer than two hex digits, a control byte).
+// (J) ORDER: the same site set (wildcards of several depths, catch-all, nested prefixes on one host) handed to
+// NewServer in 3-4 random orders, the same 3 requests sent to every order.
+func c01GenSpell(r *Rand, scale int, protoOf func() int) []interface{} {
+	var out []interface{}
+	fams := [][]string{
+		{"/a/b", "/a", "/a/b/c", "/", "/a/bc", "/a/b/"},
+		{"/caf\xc3\xa9", "/caf", "/caf\xc3", "/caf\xc3\xa9/menu", "/caf\xc3\xa9s"},
+		{"/a b", "/a b/c", "/a", "/a%b", "/a%2Fb", "/a%"},
+		{"/\xff", "/\xff\xfe", "/\xff/\x80", "/", "/\xc0\xaf"},
+		{"/x/\xe3\x83\x89", "/x/\xe3\x83", "/x", "/x/\xe3\x83\x89/y", "/x/"},
+		{"/A/b", "/a/B", "/a/b", "/A"},
+	}
+	tails := []string{"", "", "/", "x", "/x", "/c/d", "\xa9", "\xc3\xa9", "%", "%2F", "?", " ", "\xff", "//", "/../a", "\x00", "+", "#f"}
+	hostsI := []string{"a.com", "*.a.com", "", "*", "[::1]", "B.a.com", "*.*.com"}
+	for i := 0; i < 260*scale; i++ {
+		fam := fams[r.Intn(len(fams))]
+		h := r.Pick(hostsI)
+		var sites []c01Site
+		for _, j := range r.Perm(len(fam))[:r.Range(2, 4)] {
+			pre := c01Spell(r, fam[j], 25, true)
+			key := h + r.Pick([]string{"", ":2015", ":80"}) + pre
+			if h == "" && !strings.HasPrefix(key, ":") {
+				key = ":2015" + pre
+			}
+			sites = append(sites, c01Site{Key: c01B(key)})
+		}
+		if r.Chance(40) {
+			sites = append(sites, c01Site{Key: c01B(r.Pick([]string{"z.com", "*.com", "0.0.0.0:2015"}) + r.Pick([]string{"", "/a/b/c/d", "/caf%C3%A9/menu/x"}))})
+		}
+		host := h
+		for strings.Contains(host, "*") {
+			host = strings.Replace(host, "*", r.Pick([]string{"w", "Q"}), 1)
+		}
+		if r.Chance(15) {
+			host = r.Pick([]string{"zzz", "q.z.com", "a.com"})
+		}
+		host = c01MixCase(r, host) + r.Pick([]string{"", ":80", ":2015"})
+		p := fam[r.Intn(len(fam))] + r.Pick(tails)
+		if r.Chance(15) && len(p) > 2 {
+			p = p[:r.Range(1, len(p)-1)]
+		}
+		proto := protoOf()
+		query := r.Pick([]string{"", "", "?", "?x=/a/b/c", "?%zz", "?a?b"})
+		spellings := []string{c01Spell(r, p, 0, false), c01Spell(r, p, 100, false), c01Spell(r, p, 30, false), c01Spell(r, p, 60, false)}
+		// "/" inside the region of a prefix written as %2F / %2f
+		if j := strings.Index(p[1:], "/"); j >= 0 {
+			spellings = append(spellings, p[:1]+c01Spell(r, p[1:1+j], 10, false)+r.Pick([]string{"%2F", "%2f"})+c01Spell(r, p[2+j:], 10, false))
+		}
+		for _, sp := range spellings {
+			out = append(out, &c01In{Sites: sites, Host: c01B(host), Target: c01B(sp + query), Proto: proto})
+		}
+		if r.Chance(50) { // malformed: cut an escape short / non-hex digit / control byte
+			sp := spellings[1]
+			if len(sp) < 4 {
+				sp += "%61%2Fb"
+			}
+			var bad string
+			switch r.Intn(4) {
+			case 0:
+				bad = sp[:len(sp)-r.Range(1, 2)]
+			case 1:
+				k := r.Range(1, len(sp)-1)
+				bad = sp[:k] + r.Pick([]string{"%", "%G0", "%0g", "%%", "% 1"}) + sp[k:]
+			case 2:
+				k := r.Range(1, len(sp))
+				bad = sp[:k] + r.Pick([]string{"\x00", "\x1f", "\x7f", "\n"}) + sp[k:]
+			default:
+				bad = sp + "%" + r.Pick([]string{"", "4", "x1"})
+			}
+			out = append(out, &c01In{Sites: sites, Host: c01B(host), Target: c01B(bad), Proto: proto})
+		}
+	}
+	// (J)
+	pool := []string{"c.b.a.com", "*.b.a.com", "*.*.a.com", "*.*.*.com", "*.*.*.*", "c.b.a.com/x", "*.b.a.com/x/y", "*.*.a.com/x", ":2015", ":2015/x",
+		"b.a.com", "*.a.com/caf\xc3\xa9", "*.*.com/x", "0.0.0.0:2015/x/y", "*", "*.*", "C.B.a.com:80/x/y/z", "*.*.*.com/x/y"}
+	reqHosts := []string{"c.b.a.com", "C.b.A.com:80", "q.b.a.com", "q.r.a.com", "q.r.s.com", "q.r.s.t", "b.a.com", "w.a.com", "zzz", "a.b", "x.y.z.w.v", ""}
+	reqPaths := []string{"/", "/x", "/x/y", "/x/y/z/w", "/xy", "/caf\xc3\xa9/m", "/caf\xc3"}
+	for i := 0; i < 60*scale; i++ {
+		k := r.Range(3, 6)
+		var sites []c01Site
+		seen := map[string]bool{}
+		for _, j := range r.Perm(len(pool)) {
+			nk := strings.ToLower(strings.Replace(strings.Replace(pool[j], ":80", "", 1), ":2015", "", 1))
+			if seen[nk] || len(sites) >= k {
+				continue
+			}
+			seen[nk] = true
+			sites = append(sites, c01Site{Key: c01B(pool[j]), Fallback: r.Chance(8) && !strings.HasPrefix(pool[j], ":")})
+		}
+		type rq struct {
+			h, p  string
+			proto int
+		}
+		var rqs []rq
+		for n := 0; n < 3; n++ {
+			rqs = append(rqs, rq{r.Pick(reqHosts), r.Pick(reqPaths), protoOf()})
+		}
+		for o := 0; o < r.Range(3, 4); o++ {
+			ps := make([]c01Site, len(sites))
+			for a, b := range r.Perm(len(sites)) {
+				ps[a] = sites[b]
+			}
+			for _, q := range rqs {
+				out = append(out, &c01In{Sites: ps, Host: c01B(q.h), Path: c01B(q.p), Proto: q.proto})
+			}
+		}
+	}
+	// (K) host names with non-ASCII text: upper/lower case beyond A-Z (Latin-1, Latin Extended-A, Greek, Cyrillic, KELVIN
+	// SIGN, dotted capital I), caseless scripts, ill-formed UTF-8 (stray bytes, truncated sequences, surrogates)
+	declK := []string{"CAF\xc3\x89.com", "caf\xc3\xa9.com", "\xce\x91\xce\xb2.gr", "\xd0\x96.ru", "k.com", "i.com", "a\xff.com", "a\xfe.com",
+		"\xe6\x97\xa5\xe6\x9c\xac.jp", "*.caf\xc3\xa9.com", "\xc4\x80.com", "*.\xce\xb1\xce\xb2.gr", "a\xef\xbf\xbd.com", "\xd0\x81.ru", "K.com"}
+	reqK := []string{"caf\xc3\x89.COM", "CAF\xc3\xa9.com:80", "\xce\xb1\xce\x92.gr", "\xd0\xb6.ru", "\xe2\x84\xaa.com", "\xc4\xb0.com", "a\xfe.com", "a\xff.COM",
+		"a\xc3.com", "w.CAF\xc3\x89.com:80", "\xc4\x81.com", "\xed\xa0\x80.com", "\xf0\x9f\x98\x80.com", "\xe6\x97\xa5\xe6\x9c\xac.JP", "W.\xce\x91\xce\x92.gr",
+		"a\xef\xbf\xbd.com", "\xd1\x91.ru", "\xe2\x84\xab.com", "\xc3\x9f.com", "\xc3\x97.com", "a\x80\x80.com", "\xe2\x84\xaa.COM:2015"}
+	for i := 0; i < 220*scale; i++ {
+		var sites []c01Site
+		seen := map[string]bool{}
+		for _, j := range r.Perm(len(declK))[:r.Range(2, 4)] {
+			lk := strings.ToLower(declK[j])
+			if seen[lk] {
+				continue
+			}
+			seen[lk] = true
+			sites = append(sites, c01Site{Key: c01B(declK[j] + r.Pick([]string{"", "", ":2015", "/x"}))})
+		}
+		if r.Chance(30) {
+			sites = append(sites, c01Site{Key: c01B(r.Pick([]string{":2015", "*.com", "*.*"}))})
+		}
+		host := r.Pick(reqK)
+		if r.Chance(50) { // aim at a declared one, re-cased by Go's own ToUpper/ToLower where that is well-formed
+			host = c01KeyHost(string(sites[r.Intn(len(sites))].Key))
+			host = strings.Replace(host, "*", "w", -1)
+			if utf8.ValidString(host) && r.Bool() {
+				host = strings.ToUpper(host)
+			}
+		}
+		out = append(out, &c01In{Sites: sites, Host: c01B(host), Path: c01B(r.Pick([]string{"/", "/x", "/x/y", "/y"})), Proto: protoOf()})
+	}
+	return out
+}
+
 func init() {
 	register(&Property{
 		ID: "C01", Imports: "V.Lib V.GoPath V.GoNet V.C01_Model", Judge: "judge",
-		Rule:   "httpserver.NewServer + Server.ServeHTTP with a marker middleware per site that records the ordered list of sites whose handlers ran, the path_prefix context value and the trimmed path; streams: (A) mixed sets of 1-5 addresses over exact/wildcard/catch-all/IPv4/IPv6/punycode hosts x ports x mixed case x path prefixes (multi-byte UTF-8, truncated sequences, percent text), optional fallback flag, occasional repeated address, re-run permuted; (B) wildcard patterns of every depth for one name declared in EVERY order; (C) 2-5 sites sharing a host with nested byte-wise path prefixes plus a decoy host owning a longer prefix; (D) IPv6 literals with/without brackets and ports on both sides; (E) raw request-targets decoded by url.ParseRequestURI; (F) built-in catch-all hosts next to designated fallback sites in every mix; (G) 2-3 listeners (site groups with zero, one or two designated fallback sites of different names) created one after the other in ONE process by NewServer, sometimes one of them created again as a reload does, and only then requests to EVERY listener (unknown hosts, the other listeners' fallback host names, declared hosts), each judged against its own listener's site group; (H) request SEQUENCES (4-9 requests) against ONE running server, sometimes two listeners, over site sets in which a host (exact, wildcard, catch-all, designated fallback) has only sites with non-root path prefixes next to hosts with a root site: miss first (uncovered path, unknown host, respelled host) then hits; hits, miss, the same hits again; alternating across hosts and listeners; repeated requests; every answer judged by the per-request spec. Requests aim at declared hosts (wildcards instantiated, one label more/less, random letter case, ports) or foreign hosts; paths are declared prefixes extended/truncated/bit-flipped with arbitrary bytes; protocol major 0-3. non-trivial = at least two sites; distinct = distinct case term",
+		Rule:   "httpserver.NewServer + Server.ServeHTTP with a marker middleware per site that records the ordered list of sites whose handlers ran, the path_prefix context value and the trimmed path; streams: (A) mixed sets of 1-5 addresses over exact/wildcard/catch-all/IPv4/IPv6/punycode hosts x ports x mixed case x path prefixes (multi-byte UTF-8, truncated sequences, percent text), optional fallback flag, occasional repeated address, re-run permuted; (B) wildcard patterns of every depth for one name declared in EVERY order; (C) 2-5 sites sharing a host with nested byte-wise path prefixes plus a decoy host owning a longer prefix; (D) IPv6 literals with/without brackets and ports on both sides; (E) raw request-targets decoded by url.ParseRequestURI; (F) built-in catch-all hosts next to designated fallback sites in every mix; (G) 2-3 listeners (site groups with zero, one or two designated fallback sites of different names) created one after the other in ONE process by NewServer, sometimes one of them created again as a reload does, and only then requests to EVERY listener (unknown hosts, the other listeners' fallback host names, declared hosts), each judged against its own listener's site group; (H) request SEQUENCES (4-9 requests) against ONE running server, sometimes two listeners, over site sets in which a host (exact, wildcard, catch-all, designated fallback) has only sites with non-root path prefixes next to hosts with a root site: miss first (uncovered path, unknown host, respelled host) then hits; hits, miss, the same hits again; alternating across hosts and listeners; repeated requests; every answer judged by the per-request spec; (I) SPELLINGS: origin-form request-targets handed RAW to the Coq model (which decodes them itself; Go's URL.Path is compared with the model's decoding and checked by a lock-step spelling clause): for one decoded path 4-5 raw spellings (literal, every octet escaped, random octets escaped with hex digits of random case, the '/' inside a prefix as %2F/%2f, a query appended) against sites sharing a host whose prefixes (written in the Casketfile with random octets percent-encoded too) contain '/', spaces, '%', non-ASCII and invalid UTF-8 octets, plus malformed targets (short escape, non-hex digit, control byte: must be rejected by both); (J) ORDER: one site set (wildcards of 1-4 leading labels, catch-alls, nested prefixes) handed to NewServer in 3-4 random orders, the same 3 requests to every order; (K) Hosts with non-ASCII text (upper/lower case in Latin-1, Latin Extended-A, Greek, Cyrillic, KELVIN SIGN, dotted capital I; caseless scripts; ill-formed UTF-8: stray bytes, truncated sequences, surrogates) against declared hosts of the same kinds, judged by the model with Go's Unicode-aware folding (CRouteU). Requests aim at declared hosts (wildcards instantiated, one label more/less, random letter case, ports) or foreign hosts; paths are declared prefixes extended/truncated/bit-flipped with arbitrary bytes; protocol major 0-3. non-trivial = at least two sites; distinct = distinct case term",
 		Gen:    c01Gen,
 		Decode: func(raw json.RawMessage) (interface{}, error) { in := &c01In{}; return in, json.Unmarshal(raw, in) },
 		Run:    c01Run,
